@@ -332,7 +332,11 @@ func (s *Standalone) Logout(w http.ResponseWriter, r *http.Request) {
 
 	var idToken string
 
-	sess, _ := s.SessionManager.Get(r)
+	sess, err := s.SessionManager.Get(r)
+	if sess == nil && isSessionLookupFailure(err) {
+		s.InternalError(w, r, fmt.Errorf("logout: getting session: %w", err))
+		return
+	}
 	if sess != nil {
 		idToken = sess.IDToken()
 		logger = logger.WithField("sid", sess.ExternalSessionID())
@@ -370,7 +374,11 @@ func (s *Standalone) Logout(w http.ResponseWriter, r *http.Request) {
 func (s *Standalone) LogoutLocal(w http.ResponseWriter, r *http.Request) {
 	logger := mw.LogEntryFrom(r)
 
-	sess, _ := s.SessionManager.Get(r)
+	sess, err := s.SessionManager.Get(r)
+	if sess == nil && isSessionLookupFailure(err) {
+		s.InternalError(w, r, fmt.Errorf("logout/local: getting session: %w", err))
+		return
+	}
 	if sess != nil {
 		logger = logger.WithField("sid", sess.ExternalSessionID())
 
@@ -531,6 +539,12 @@ func (s *Standalone) SessionForwardAuth(w http.ResponseWriter, r *http.Request) 
 // Wildcard proxies all requests to an upstream server.
 func (s *Standalone) Wildcard(w http.ResponseWriter, r *http.Request) {
 	s.UpstreamProxy.Handler(s, w, r)
+}
+
+// isSessionLookupFailure reports whether looking up the session failed for a reason other than the
+// session being absent or invalid, i.e. the session may still exist in the store.
+func isSessionLookupFailure(err error) bool {
+	return err != nil && !errors.Is(err, session.ErrNotFound) && !errors.Is(err, session.ErrInvalid)
 }
 
 func handleGetSessionError(route string, w http.ResponseWriter, r *http.Request, err error) {
